@@ -107,7 +107,10 @@ def extension_header(cfg, sp=None):
         if (order // 7) % 2:
             params.reverse()
     sep = sp.get("semi_l", "") + ";" + sp.get("semi_r", " ")
-    return sep.join(["permessage-deflate"] + params)
+    value = sep.join(["permessage-deflate"] + params)
+    # the header is a comma-separated LIST: empty list elements are legal and mean nothing (RFC 7230 section 7)
+    lst = sp.get("list", 0) % 5
+    return [value, value + ",", ", " + value, value + " , ", "," + value + ",,"][lst]
 
 
 DEFAULT_CFG = {"sb": 15, "cb": 15, "snct": False, "cnct": False}
